@@ -64,7 +64,7 @@ func runSchedule(b *tv.Batch, prog program, seed int64) result {
 	defer func() { broadcaster.VerifHook = nil }()
 	bc := broadcaster.New[int]()
 	stop := make(chan struct{})
-	var draining atomic.Bool
+	var draining, closeReturned atomic.Bool
 	type sub struct {
 		cancel context.CancelFunc
 	}
@@ -162,6 +162,7 @@ func runSchedule(b *tv.Batch, prog program, seed int64) result {
 				rec.ev("close_call", nil)
 				c.cur = ctl.Go(fmt.Sprintf("c%d:close", ci), func() {
 					bc.Close()
+					closeReturned.Store(true)
 					rec.ev("close_ret", nil)
 				})
 			}
@@ -206,7 +207,12 @@ func runSchedule(b *tv.Batch, prog program, seed int64) result {
 		case strings.HasSuffix(c.Name, ":close"):
 			return 1
 		case c.Name == "release:reader.take":
+			if closeReturned.Load() {
+				return 30 // a Close call has returned: whatever is still delivered now is delivered after Close
+			}
 			return 2
+		case c.Name == "release:bcast.fwd.got" && closeReturned.Load():
+			return 15
 		}
 		return 4
 	}
@@ -336,6 +342,7 @@ func TestCheck(t *testing.T) {
 		{Clients: [][]opSpec{{S(1, "prompt"), S(2, "slow"), S(3, "prompt"), CA(2), S(4, "prompt"), CA(4), BC(1), CA(1), BC(1)}}},
 		// Close racing deliveries
 		{Clients: [][]opSpec{{S(1, "slow"), S(2, "prompt"), BC(3)}, {CL}, {CL}}},
+		{Clients: [][]opSpec{{S(1, "slow"), S(2, "slow"), BC(4)}, {after(CL, 3)}, {after(CL, 3)}, {after(CL, 4)}}},
 	}
 	nStaged := ev.Pick(25, 400)
 	nRandProg := ev.Pick(150, 5000)
